@@ -258,6 +258,81 @@ impl AtomicU32 {
             .compare_exchange_weak(current, new, success, failure)
     }
 
+    /// Read-modify-write operations the sync code does not use today.  With a hook installed
+    /// they are expressed through the hooked `load` + `compare_exchange_weak` loop (an equivalent
+    /// read-modify-write with the same ordering), so no further hook kinds are needed.
+    #[track_caller]
+    fn rmw_with(&self, order: Ordering, f: impl Fn(u32) -> u32) -> Option<u32> {
+        hooks()?;
+        let mut prev = self.load(Ordering::Relaxed);
+        loop {
+            match self.compare_exchange_weak(prev, f(prev), order, Ordering::Relaxed) {
+                Ok(old) => return Some(old),
+                Err(cur) => prev = cur,
+            }
+        }
+    }
+
+    #[track_caller]
+    pub fn fetch_or(&self, val: u32, order: Ordering) -> u32 {
+        match self.rmw_with(order, |x| x | val) {
+            Some(old) => old,
+            None => self.inner.fetch_or(val, order),
+        }
+    }
+
+    #[track_caller]
+    pub fn fetch_and(&self, val: u32, order: Ordering) -> u32 {
+        match self.rmw_with(order, |x| x & val) {
+            Some(old) => old,
+            None => self.inner.fetch_and(val, order),
+        }
+    }
+
+    #[track_caller]
+    pub fn fetch_xor(&self, val: u32, order: Ordering) -> u32 {
+        match self.rmw_with(order, |x| x ^ val) {
+            Some(old) => old,
+            None => self.inner.fetch_xor(val, order),
+        }
+    }
+
+    #[track_caller]
+    pub fn fetch_nand(&self, val: u32, order: Ordering) -> u32 {
+        match self.rmw_with(order, |x| !(x & val)) {
+            Some(old) => old,
+            None => self.inner.fetch_nand(val, order),
+        }
+    }
+
+    #[track_caller]
+    pub fn fetch_max(&self, val: u32, order: Ordering) -> u32 {
+        match self.rmw_with(order, |x| x.max(val)) {
+            Some(old) => old,
+            None => self.inner.fetch_max(val, order),
+        }
+    }
+
+    #[track_caller]
+    pub fn fetch_min(&self, val: u32, order: Ordering) -> u32 {
+        match self.rmw_with(order, |x| x.min(val)) {
+            Some(old) => old,
+            None => self.inner.fetch_min(val, order),
+        }
+    }
+
+    /// Non-atomic access through exclusive ownership: never a yield point.
+    #[inline]
+    pub fn get_mut(&mut self) -> &mut u32 {
+        self.inner.get_mut()
+    }
+
+    #[inline]
+    #[must_use]
+    pub fn into_inner(self) -> u32 {
+        self.inner.into_inner()
+    }
+
     /// Same algorithm as `core`: a load followed by a `compare_exchange_weak` loop.
     /// # Errors
     /// The value found, if `f` returned `None` for it.
